@@ -36,7 +36,7 @@ func init() {
 			case k < 4:
 				op.Op = "set-wt"
 			case k < 6:
-				op.Op = []string{"clear-wt", "clear-wt-empty"}[r.IntN(2)]
+				op.Op = []string{"clear-wt", "clear-wt-empty", "set-bad"}[r.IntN(3)]
 			case k < 8:
 				op.Op = "set-dl-future"
 			case k < 10:
@@ -131,6 +131,17 @@ func runC15Conn(x *Exec) {
 						return
 					}
 					st[i].wt = t
+				case "set-bad":
+					// a value the table refuses: nothing changes, neither what s3db_conn shows nor what applies
+					// (the later read-conn and write ops check both against what was set before)
+					q := []string{"update s3db_conn set write_time='yesterday'", "update s3db_conn set deadline='soon'",
+						"update s3db_conn set write_time='1600-01-01 00:00:00'", "update s3db_conn set write_time='2300-01-01 00:00:00'",
+						"update s3db_conn set deadline='2030-01-01 00:00:00', write_time='12 o''clock'"}[op.Secs%5]
+					if _, err := c.Exec(q); err == nil {
+						x.Fail("C15-bad-value-accepted", "%s: %s reported success", desc, q)
+						return
+					}
+					x.Probe("refused-attribute-value")
 				case "clear-wt", "clear-wt-empty":
 					var err error
 					if op.Op == "clear-wt" {
